@@ -91,6 +91,16 @@ def handle (cmd : String) (args : List String) : String :=
         | .error .bug => "bug"
       | _, _, _, _ => "bad-args"
     | _ => "bad-args"
+  -- C10 -------------------------------------------------------------------
+  | "tst" | "tst_open" =>     -- transform_segments_together on integer-labelled segments
+    match (args.mapM parseInt?) >>= pairUp with
+    | some segs =>
+      -- transformed segments get fresh pairwise distinct endpoints: (2i, 2i+1)
+      let tr : List (Nat × Nat) := (List.range segs.length).map fun i => (2 * i, 2 * i + 1)
+      let res := if cmd == "tst" then PathOps.weld segs tr else PathOps.weldOpen segs tr
+      let starts := PathOps.rot1 (res.map (·.1))
+      " ".intercalate ((res.zip starts).map fun (s, nx) => if s.2 = nx then "1" else "0")
+    | none => "bad-args"
   | _ => "bad-op"
 
 partial def loop (h : IO.FS.Stream) (out : IO.FS.Stream) : IO Unit := do
